@@ -5,7 +5,7 @@ import ast
 import csv
 
 from .core import AnalysisError, loc, norm_src, walk_no_nested, dotted
-from .symx import Interp, Obj, PList, Opaque, Path, Unsupported, explore, Abort, canon
+from .symx import Interp, Obj, PList, PDict, Opaque, Path, Unsupported, explore, Abort, canon
 from .rat import Rat
 
 RMNT = "src/scenarios/run_model_no_trade.py"
@@ -14,6 +14,7 @@ TABLE = "data/no_food_trade/computer_readable_combined.csv"
 
 def run(index, rep):
     rep.guard(acc, index, rep)
+    rep.guard(iteration, index, rep)
     rep.guard(sel, index, rep)
     rep.guard(once, index, rep)
 
@@ -112,6 +113,159 @@ def acc(index, rep):
     nested_rets = [r for r in walk_no_nested(fn) if isinstance(r, ast.Return) and r not in fn.body]
     rep.check(not nested_rets, rule, "return:single", "an early return skips part of the aggregation", loc=loc(RMNT, fn))
     rep.require_min(rule, 12)
+
+
+def iteration(index, rep):
+    """one pass of the country loop evaluated for a symbolic row and symbolic running totals: every feasible path either skips the
+    country for a stated reason and leaves both totals and the results untouched, or adds population to the denominator,
+    min(1, ratio) x population to the numerator and stores the country's result - nothing else"""
+    from .symx import _Continue
+    from .rat import feasible, K
+    rule = "C15.ACC"
+    fn = index.func(RMNT, "ScenarioRunnerNoTrade.run_model_no_trade")
+    cls = index.cls(RMNT, "ScenarioRunnerNoTrade")
+    loops = [s for s in fn.body if isinstance(s, ast.For) and "iterrows()" in norm_src(s.iter)]
+    if len(loops) != 1:
+        raise AnalysisError("run_model_no_trade: the single pass over no_trade_table.iterrows() was not found")
+    loop = loops[0]
+    unp = [s for s in walk_no_nested(fn) if isinstance(s, ast.Assign) and isinstance(s.value, ast.Call)
+           and dotted(s.value.func) == "self.get_countries_to_run_and_skip" and isinstance(s.targets[0], ast.Tuple) and len(s.targets[0].elts) == 2]
+    if len(unp) != 1:
+        raise AnalysisError("run_model_no_trade: the call that yields (inclusion list, skip list) was not found")
+    incl_name, skip_name = (norm_src(e) for e in unp[0].targets[0].elts)
+    accs = {}
+    for st in walk_no_nested(loop):
+        if isinstance(st, ast.AugAssign) and isinstance(st.target, ast.Name):
+            accs.setdefault(st.target.id, []).append(st)
+    P0, F0 = Rat.atom(("P0",)), Rat.atom(("F0",))
+    ratio = Rat.atom(("ratio",))
+    neg = {"<": ">=", "<=": ">", ">": "<=", ">=": "<", "==": "!=", "!=": "=="}
+    # which names are the two totals: the two returned after `world`
+    ret = [r for r in fn.body if isinstance(r, ast.Return)]
+    if len(ret) != 1 or not isinstance(ret[0].value, (ast.List, ast.Tuple)) or len(ret[0].value.elts) != 4:
+        raise AnalysisError("run_model_no_trade no longer returns [world, net_pop, net_pop_fed, results]")
+    world_n, pop_n, fed_n, res_n = (norm_src(e) for e in ret[0].value.elts)
+
+    def runit(it):
+        it.classes = {"ScenarioRunnerNoTrade": cls}
+        rec = {}
+
+        def hook(interp, d, a, kw, node):
+            if d == "self.apply_custom_parameters":
+                rec["custom_arg"] = a[0]
+                return Path(("row",))
+            if d == "self.verify_country_data":
+                rec["verified"] = a[0]
+                return None
+            if d in ("np.isnan", "math.isnan", "pd.isna", "pd.isnull"):
+                return interp.fork("isnan:" + canon(a[0]))
+            if d == "self.run_optimizer_for_country":
+                rec["opt_arg"] = a[0]
+                return (ratio, Opaque("description"), Opaque("interpreted"))
+            if d == "self.fill_data_for_map":
+                rec["map"] = [canon(x) for x in a]
+                return None
+            if d in ("print",):
+                return None
+            return NotImplemented
+
+        it.call_hook = hook
+        env = {"self": Obj(cls, {}, "self"), incl_name: Path(("incl",)), skip_name: Path(("skip",)), pop_n: P0, fed_n: F0, res_n: PDict(),
+               world_n: Opaque("world")}
+        loaded = {n.id for n in ast.walk(loop) if isinstance(n, ast.Name) and isinstance(n.ctx, ast.Load)}
+        for nme in sorted(loaded):
+            if nme not in env and nme not in ("np", "self", "print", "len", "str", "float", "round", "math", "pd", "min", "max", "int", "bool"):
+                env[nme] = Rat.atom(("n", nme)) if nme in accs else Path(("arg", nme))
+        for nme in accs:
+            env.setdefault(nme, Rat.atom(("n", nme)))
+        it.assign(loop.target, (Opaque("index"), Path(("row0",))), env)
+        try:
+            it.exec_block(loop.body, env)
+        except _Continue:
+            return "skipped", env, rec
+        return "counted", env, rec
+
+    try:
+        leaves = explore(runit, month_classes=False)
+    except Unsupported as e:
+        raise AnalysisError(f"country loop body outside the analysed fragment: {e}")
+    n_counted = n_skipped = 0
+    for _, dec, res, it in leaves:
+        if isinstance(res, Abort):
+            rep.violation(rule, "loop-body:abort", "a path through the country loop ends the process", loc=loc(RMNT, loop))
+            continue
+        kind, env, rec = res
+        cons = [(it.pred_exprs[k][0], it.pred_exprs[k][1] if v else neg[it.pred_exprs[k][1]]) for k, v in dec.items() if k in it.pred_exprs
+                and not k.startswith("nonzero:")]
+        if not feasible(cons):
+            continue
+        # stated reasons to leave a country out
+        def val(prefix):
+            return [v for k, v in dec.items() if k.replace(" ", "").startswith(prefix)]
+        incl_active = any(v for k, v in dec.items() if "len" in k and "incl" in k)
+        in_incl = [v for k, v in dec.items() if k.replace(" ", "").endswith("inincl")]
+        in_skip = [v for k, v in dec.items() if k.replace(" ", "").endswith("inskip")]
+        nan_pop = [v for k, v in dec.items() if k.startswith("isnan:") and "population" in k]
+        nan_ratio = [v for k, v in dec.items() if k.startswith("isnan:") and "ratio" in k]
+        reasons = []
+        if incl_active and in_incl and not in_incl[-1]:
+            reasons.append("not in the inclusion list")
+        if in_skip and in_skip[-1]:
+            reasons.append("in the skip list")
+        if nan_pop and nan_pop[-1]:
+            reasons.append("population is NaN")
+        if nan_ratio and nan_ratio[-1]:
+            reasons.append("the optimisation failed (NaN)")
+        where = ", ".join(f"{k}={'T' if v else 'F'}" for k, v in dec.items())
+        got_pop, got_fed = it.to_rat(env[pop_n]), it.to_rat(env[fed_n])
+        results = env[res_n]
+        if kind == "skipped":
+            n_skipped += 1
+            ok = bool(reasons)
+            rep.check(ok, rule, "skip only for a stated reason" + ("" if ok else f" [{where}]"),
+                      f"a selected country with a valid population and result is left out of the aggregate when {where}", loc=loc(RMNT, loop))
+            ok2 = got_pop == P0 and got_fed == F0 and isinstance(results, PDict) and not results.d
+            rep.check(ok2, rule, "skipped country leaves both totals and the results untouched" + ("" if ok2 else f" [{where}]"),
+                      f"a skipped country still changes a total or the results (partial update) when {where}", loc=loc(RMNT, loop),
+                      detail=f"pop {got_pop}, fed {got_fed}")
+            continue
+        n_counted += 1
+        rep.check(not reasons, rule, "excluded countries are never counted" + ("" if not reasons else f" [{where}]"),
+                  f"a country that is {' / '.join(reasons)} is counted", loc=loc(RMNT, loop))
+        row = rec.get("opt_arg")
+        popatom = [a for a in (got_pop - P0).atoms() if isinstance(a, K)]
+        ok = len(popatom) == 1 and popatom[0].path[-1] == "population" and isinstance(row, Path) and popatom[0].path[:-1] == row.parts \
+            and got_pop == P0 + Rat.atom(popatom[0])
+        rep.check(ok, rule, "denominator += population of the row that was optimised" + ("" if ok else f" [{where}]"),
+                  "net population is not increased by exactly the 'population' of the row handed to the optimiser", loc=loc(RMNT, loop),
+                  detail=str(got_pop))
+        if ok:
+            pop = Rat.atom(popatom[0])
+            ge1 = not feasible(cons + [(ratio - Rat.const(1), "<")])
+            lt1 = not feasible(cons + [(ratio - Rat.const(1), ">")])
+            want = [F0 + pop] if ge1 else []
+            want += [F0 + pop * ratio] if lt1 else []
+            okf = any(got_fed == w for w in want)
+            rep.check(okf, rule, "numerator += min(1, ratio) x population" + ("" if okf else f" [{where}]"),
+                      f"population fed is not increased by min(1, fed ratio) x population when {where}", loc=loc(RMNT, loop), detail=str(got_fed))
+        rr = dec.get("arg.return_results", None)
+        if isinstance(results, PDict):
+            keys = list(results.d)
+            if rr is False:
+                okr = not keys
+            else:
+                okr = len(keys) == 1 and canon(results.d[keys[0]]) == canon(Opaque("interpreted")) and "country" in str(keys[0])
+            rep.check(okr, rule, "result stored once under the country's name" + ("" if okr else f" [{where}]"),
+                      "the counted country's result is not stored exactly once under its own name", loc=loc(RMNT, loop), detail=str(keys))
+        # the ratio handed to the map is the uncapped one of this country
+    if n_counted < 1 or n_skipped < 3:
+        raise AnalysisError(f"country loop: {n_counted} counted / {n_skipped} skipped paths analysed (expected >= 1 / >= 3)")
+    # run_optimizer_for_country hands back percent/100 in slot 0
+    rofc = index.func(RMNT, "ScenarioRunnerNoTrade.run_optimizer_for_country")
+    rets = [r for r in walk_no_nested(rofc) if isinstance(r, ast.Return)]
+    ok = bool(rets) and all(isinstance(r.value, ast.Tuple) and norm_src(r.value.elts[0]).replace(" ", "") in
+                            ("percent_people_fed/100", "percent_people_fed/100.0", "percent_people_fed*0.01") for r in rets)
+    rep.check(ok, rule, "ratio:percent/100", "run_optimizer_for_country does not return percent_people_fed / 100 in slot 0", loc=loc(RMNT, rofc))
 
 
 def _is_min1(block, upto, capname, ratio):
